@@ -118,6 +118,8 @@ func TestC15(t *testing.T) {
 			{"testserve:" + proto, "treattach", "start", "client", "dispense", "set:7", "kill", "closed?", "treattach", "start", "client", "dispense", "get", "kill", "cancel"},
 			{"testserve:" + proto, "treattach", "start", "client", "dispense", "set:7", "treattach", "start", "client", "dispense", "get", "kill:0", "get", "closed?", "cancel"},
 			{"testserve:" + proto, "cancel"},
+			// second generation: a client reattached from a reattached client's own ReattachConfig
+			{"testserve:" + proto, "treattach", "start", "client", "dispense", "set:7", "reattach:0", "start", "client", "dispense", "get", "kill:1", "closed?", "get:@0", "cancel"},
 		} {
 			cells = append(cells, Cell{Name: fmt.Sprintf("test-mode %s ops=%v", proto, ops[1:]), Plugin: PluginConf{LegacyProto: proto},
 				Host: HostConf{Allowed: []string{"netrpc", "grpc"}, TLS: "none", Launch: "cmd", Legacy: 1}, Ops: ops})
